@@ -47,7 +47,10 @@ CleanB(p) ==
     objs |-> << [clen |-> sh[1] * 3, oti |-> Oti(sc, sh[2], sh[3], IF sc = 0 THEN 0 ELSE pa, fti), cenc |-> ce, icenc |-> icenc,
                  groups |-> <<"og", "x&y">>, etag |-> "\"e1\"", type |-> "text/x; a=\"b\"",
                  cache |-> IF pa = 0 THEN <<"maxstale", 0>> ELSE IF pa = 1 THEN <<"expires", 500>> ELSE <<"none", 0>>],
-                [clen |-> sh[1], q |-> 2, oti |-> Oti(0, 3, 2, 0, TRUE), count |-> 2, cenc |-> ce, md5 |-> FALSE],
+                \* two transfers; without content encoding the bytes come from a scripted stream / a file (one copy per
+                \* transfer whatever the source: the stream must be rewound for the second transfer)
+                [clen |-> sh[1], q |-> 2, oti |-> Oti(0, 3, 2, 0, TRUE), count |-> 2, cenc |-> ce, md5 |-> FALSE,
+                 src |-> IF ce # 0 THEN "buffer" ELSE IF mx = 0 THEN "buffer" ELSE IF mx = 1 THEN "stream" ELSE "file"],
                 [clen |-> 5, q |-> 0, count |-> 1, cache |-> <<"expiresat", 99999>>, loc |-> "http://h/p/o3 x.bin?q=1"] >>,
     ops |-> << <<"add", 1>>, <<"add", 2>>, <<"add", 3>>, <<"publish">>, <<"drain">>, <<"adv", 1500>>, <<"drain">> >> ]
 
